@@ -107,7 +107,7 @@ def canon(v, depth=0):
             kk = k if isinstance(k, (str, int)) else f"{type(k).__name__}#{i}"
             items.append([kk, canon(x, depth + 1)])
         return {"dict": items}
-    if hasattr(v, "__dict__"):
+    if hasattr(v, "__dict__") and type(v).__module__.split(".")[0] not in ("scipy", "numpy", "astropy"):
         out = {"cls": type(v).__name__}
         if depth < 3:
             cached = _cached_names(type(v))
@@ -118,7 +118,14 @@ def canon(v, depth=0):
                 attrs[k] = canon(x, depth + 1)
             out["attrs"] = attrs
         return out
-    return {"cls": type(v).__name__, "repr": repr(v)[:80]}
+    out = {"cls": type(v).__name__}
+    for k in ("points", "simplices", "vertices", "regions", "point_region", "ridge_points"):
+        if hasattr(v, k):  # scipy.spatial Delaunay / Voronoi
+            try:
+                out[k] = canon(getattr(v, k), depth + 1)
+            except Exception:
+                pass
+    return out
 
 
 def fp_value(v) -> str:
@@ -399,10 +406,17 @@ def build_graph(b, upto=None) -> Graph:
             if pm is not None:
                 g.add_input("mesh_pixel_mask", pm)
             if mv["values"] == "reconstruction":
-                g.stage("MapperValued", [mapper_idx[0], inv_idx], lambda: aa.MapperValued(
-                    mapper=mappers[0], values=inv.reconstruction[: mappers[0].params], mesh_pixel_mask=pm)
-                    if len(mappers) > 1 else aa.MapperValued(
-                    mapper=mappers[0], values=inv.reconstruction, mesh_pixel_mask=pm))
+                def mk_mv():
+                    # the usual use: the valued mapper is handed the inversion's (cached) reconstruction
+                    try:
+                        rec = inv.reconstruction
+                    except Exception:
+                        rec = np.zeros(sum(mp.params for mp in mappers))
+                    if len(mappers) > 1:
+                        rec = rec[: mappers[0].params]
+                    return aa.MapperValued(mapper=mappers[0], values=rec, mesh_pixel_mask=pm)
+
+                g.stage("MapperValued", [mapper_idx[0], inv_idx], mk_mv)
             else:
                 vals = g.add_input("mv_values", _arr(mv["values"], None))
                 g.stage("Buffer", [], lambda: vals)
@@ -446,6 +460,8 @@ def _fit_class(aa):
 # ==================================================================================================
 def do_read(obj, key):
     """dotted attribute path; a trailing component `name()` calls a zero-argument method."""
+    if key == "bytes" and isinstance(obj, np.ndarray):
+        return obj
     v = obj
     for part in key.split("."):
         if part.endswith("()"):
@@ -667,6 +683,15 @@ def rebuild(obj, kind):
     return None
 
 
+def _same_contents(rb, obj, kind):
+    try:
+        if kind == "Imaging":
+            return True
+        return fp_bytes(np.asarray(rb.array)) == fp_bytes(np.asarray(obj.array))
+    except Exception:
+        return False
+
+
 def safe_value(fn):
     try:
         return fp_value(fn())
@@ -704,7 +729,7 @@ class FreshEval:
             try:
                 o, kind = self.obj(root, path)
             except Exception as e:
-                self.memo[k] = f"err-build:{type(e).__name__}"
+                self.memo[k] = "err:failed-derivation"
                 return self.memo[k]
             if step["op"] == "read":
                 self.memo[k] = safe_value(lambda: do_read(o, step["key"]))
@@ -727,7 +752,19 @@ def run_history(case):
             continue
         obj, kind = g.pool[o], g.kinds[o]
         out = {}
-        if st["op"] == "read":
+        if kind == "Failed":
+            # the derivation that should have produced this object raised (in the fresh world it must too)
+            root, path = terms[o]
+            if st["op"] == "derive":
+                g.pool.append(None)
+                g.kinds.append("Failed")
+                g.parents.append([])
+                terms.append((root, path + [st["g"]]))
+                out["value"] = None
+            else:
+                out["value"] = "err:failed-derivation"
+                out["fresh"] = fresh.value(root, path, st)
+        elif st["op"] == "read":
             holder = {}
 
             def rd():
@@ -743,7 +780,9 @@ def run_history(case):
                 if exp is not None:
                     out["direct"] = bool(fp_value(exp) == fp_value(holder["v"]))
                 rb = rebuild(obj, kind)
-                if rb is not None:
+                # only when the constructor takes the derived object's array as it is (a derivation may leave
+                # values in masked cells which the constructor would normalise to zero)
+                if rb is not None and _same_contents(rb, obj, kind):
                     rbv = safe_value(lambda: do_read(rb, st["key"]))
                     out["rebuilt"] = rbv
         elif st["op"] == "query":
@@ -756,7 +795,7 @@ def run_history(case):
                 ok = True
             except Exception as e:
                 new, ok = None, False
-                out["value"] = f"err:{type(e).__name__}"
+                out["value"] = None
             if ok:
                 g.pool.append(new)
                 g.kinds.append(result_kind(kind, st["g"]))
@@ -925,6 +964,11 @@ def dataset_build(rng, m, inversion=False):
                                 "reg": "constant", "coeff": q(_pos(rng, 1, 4))})
         b["mappers"] = mappers
         b["w_tilde"] = rng.random() < 0.4
+        if b["w_tilde"] and kh != kw:
+            # the w-tilde formalism with a non-square PSF is C04's subject (defect D2); keep this graph buildable
+            k = max(kh, kw)
+            b["psf_shape"] = [k, k]
+            b["psf"] = [q(_pos(rng, 0, 4) + Fraction(1, 4)) for _ in range(k * k)]
         b["positive_only"] = rng.random() < 0.4
         b["distort"] = [q(v) for v in rng.choice([(1, 0, 0, 1), (Fraction(3, 4), Fraction(1, 4), 0, 1),
                                                   (1, Fraction(-1, 2), Fraction(1, 4), Fraction(5, 4))])]
@@ -1208,11 +1252,13 @@ class C11(PropertyCheck):
                         yield {"tag": f"pattern_{kind}", "kind": "history", "build": b, "history": hist}
 
     def _rng_case(self, rng, maxsteps):
-        h, w = rng.randint(1, 4), rng.randint(1, 4)
+        # >= 6 pixels and >= 300 expected counts per unit flux: two different seeds giving the same Poisson
+        # image by chance (which would falsify the model's equality pattern, not the property) is < 1e-7
+        h, w = rng.choice([(2, 3), (3, 2), (3, 3), (2, 4), (4, 2), (3, 4), (4, 3), (1, 6), (6, 1)])
         use_psf = rng.random() < 0.5
         b = {"graph": "rng", "shape": [h, w], "scales": _scales(rng),
              "image": [q(_pos(rng, 1, 8)) for _ in range(h * w)],
-             "exposure_time": q(rng.choice([100, 300, 1000])),
+             "exposure_time": q(rng.choice([300, 1000, 3000])),
              "background_sky_level": q(rng.choice([0, 1, Fraction(1, 2)])),
              "normalize_psf": rng.random() < 0.5,
              "add_noise": rng.random() < 0.85, "noise_in_map": rng.random() < 0.85}
